@@ -21,7 +21,7 @@ ASSUMPTIONS = ['concurrence comparisons at 1e-7 (square roots of eigenvalues); l
                'the ensemble is reconstructed from the model attributes manifold / manifold_stiefel and _sqrt_rho; if they disappear only the inequality is judged']
 
 BELL = np.array([1, 0, 0, 1]) / math.sqrt(2)
-STATE_KINDS = ['random', 'separable', 'near_separable', 'werner', 'isotropic', 'pure_product', 'pure_entangled', 'max_entangled', 'xstate']
+STATE_KINDS = ['random', 'separable', 'near_separable', 'werner', 'isotropic', 'pure_product', 'pure_entangled', 'max_entangled', 'xstate', 'weak_pure']
 
 
 def _nq():
@@ -64,6 +64,11 @@ def build(c):
         return np.outer(v, v.conj())
     if k == 'pure_entangled':
         v = ref.rand_state(r, 4)
+        return np.outer(v, v.conj())
+    if k == 'weak_pure':
+        # weakly entangled pure state: Schmidt probabilities (1-lam, lam) with lam = 10^eps_exp in [1e-14, 1e-2], locally rotated
+        lam = 10 ** c['eps_exp']
+        v = np.kron(ref.rand_unitary(r, 2), ref.rand_unitary(r, 2)) @ np.array([math.sqrt(1 - lam), 0, 0, math.sqrt(lam)])
         return np.outer(v, v.conj())
     if k == 'max_entangled':
         v = np.kron(ref.rand_unitary(r, 2), ref.rand_unitary(r, 2)) @ BELL
@@ -144,7 +149,7 @@ def run_closed(ctx, case):
         Ep = float(E.get_eof_pure(psi))
         ctx.require(math.isfinite(Cp) and math.isfinite(Ep), 'pure-state formulas finite', f'{Cp} {Ep}')
         ctx.close(Cp, 2 * sv[0] * sv[1], 1e-7, 'get_concurrence_pure = 2 sqrt(det rho_A)')
-        ctx.close(Ep, h2(sv[0] ** 2), 1e-9, 'get_eof_pure = entropy of the Schmidt spectrum')
+        ctx.close(Ep, h2(sv[0] ** 2), 5e-9, 'get_eof_pure = entropy of the Schmidt spectrum')  # the documented cut-off eps = 1e-10 drops at most -lam log lam = 2.3e-9
         ctx.close(C, Cp, 1e-7, 'mixed-state concurrence reduces to the pure-state formula')
         ctx.close(F, Ep, 1e-6 if C < 1e-3 else 1e-7, 'mixed-state EOF reduces to the pure-state formula')
         ctx.close(G, 1 - sv[0] ** 2, max(1e-7, min(2e-3, 1e-7 * C / (2 * sC + 1e-12))), 'GME of a pure state = 1 - max Schmidt coefficient squared')
